@@ -498,6 +498,13 @@ def _run(case, scratch):
     from odml.validation import Validation
     for v, root in w.defaults:
         try:
+            # report() "validates the registered object and returns a results report": after the edits of the history
+            # it describes the objects as they are now
+            text = v.report()
+            g, x = issues_of(v, [root]), issues_of(Validation(root), [root])
+            if g != x or text != Validation(root).report():
+                fail("validating-twice-gives-different-issues", dict(describe_delta(g, x), via="report() of an instance that ran before"))
+                break
             v.run_validation()
             g, x = issues_of(v, [root]), issues_of(Validation(root), [root])
             if g != x:
